@@ -45,6 +45,16 @@ Oracles (DESIGN.md section 5, C14) - all comparisons are exact (``==`` on float6
   switch-restored       ``design_space.enable_integer_variables_normalization`` has its initial value after the call
                         (both initial values are enumerated)
   switch-restored-after-error   the same when the call raised one of the library's own errors
+  arguments-unchanged   every array / mapping / list handed to the library (custom samples as float or integer array,
+                        dictionary, list of dictionaries; OAT initial point; levels / centers / reverse lists; nested
+                        algorithm settings) is bitwise what it was, after every call; the repeated calls of a case
+                        reuse the very same objects, so that a consequence also breaks the determinism oracles
+  design-definition     the unit design is the one the settings document: full-factorial = full product of the
+                        per-component level sets (levels[i] equispaced values, the centre for one level; every levels
+                        vector over {1,2,3} for d <= 3) - OT_FULLFACT and PYDOE_FULLFACT are held to the same
+                        reference, hence agree as point sets; axial / factorial / composite = centre, c_i + l(1 - c_i)
+                        and c_i - l c_i per component (per-component centers included); pyDOE response-surface designs
+                        = the direct pyDOE3 design mapped by (x + 1) / 2, row by row; PYDOE_FF2N = the corners
 
 Oracle boundaries (also written to the evidence, ``oracle_table``):
 
@@ -67,6 +77,7 @@ Oracle boundaries (also written to the evidence, ``oracle_table``):
 from __future__ import annotations
 
 import hashlib
+import itertools
 import json
 import os
 import subprocess
@@ -125,20 +136,25 @@ SAMPLING = [
 N_SIZES = [f"n{n}" for n in N_VALUES]
 STRATIFIED = {"OT_AXIAL": lambda d: 2 * d, "OT_FACTORIAL": lambda d: 2**d, "OT_COMPOSITE": lambda d: 2 * d + 2**d}
 
+# per-component numbers of levels of the full-factorial designs: every vector over {1, 2, 3} in dimension <= 3 (a 1 in
+# every position), three vectors in dimension 5; a vector applies to the dimension equal to its length
+LEVEL_VECTORS = ["Lv" + "-".join(map(str, v)) for k in (1, 2, 3) for v in itertools.product((1, 2, 3), repeat=k)] + ["Lv1-2-3-1-2", "Lv3-1-2-1-2", "Lv2-2-1-3-1"]
+CENTER_VECTOR = [0.25, 0.5, 0.75, 0.4, 0.6]
+
 # size alphabets of the structured designs (label -> meaning in ``settings_for``)
 SIZES = {
     **{a: N_SIZES for a in SAMPLING},
     "PoissonDisk": N_SIZES,
     "DiagonalDOE": [*N_SIZES, "n5/rev-last-name", "n5/rev-index0"],
-    "OT_FULLFACT": [*N_SIZES, "n60", "L1", "L2", "Lvec"],
-    "PYDOE_FULLFACT": [*N_SIZES, "n60", "L1", "L2", "Lvec"],
-    "OT_AXIAL": [*N_SIZES, "n60", "lev(.5,1)", "lev(.2,.8)c.25"],
-    "OT_FACTORIAL": [*N_SIZES, "n60", "lev(.5,1)", "lev(.2,.8)c.25"],
-    "OT_COMPOSITE": [*N_SIZES, "n60", "lev(.5,1)", "lev(.2,.8)c.25"],
+    "OT_FULLFACT": [*N_SIZES, "n60", "L1", "L2", "Lvec", *LEVEL_VECTORS],
+    "PYDOE_FULLFACT": [*N_SIZES, "n60", "L1", "L2", "Lvec", *LEVEL_VECTORS],
+    "OT_AXIAL": [*N_SIZES, "n60", "lev(.5,1)", "lev(.2,.8)c.25", "lev(.2,.8)c-vec"],
+    "OT_FACTORIAL": [*N_SIZES, "n60", "lev(.5,1)", "lev(.2,.8)c.25", "lev(.2,.8)c-vec"],
+    "OT_COMPOSITE": [*N_SIZES, "n60", "lev(.5,1)", "lev(.2,.8)c.25", "lev(.2,.8)c-vec"],
     "OT_SOBOL_INDICES": [*N_SIZES, "n60", "n13/first-order", "n60/first-order"],
     "MorrisDOE": [*N_SIZES, "n60", "default", "n13/step.3"],
     "OATDOE": ["p.5", "p-linspace", "p.97", "p.3/step.5"],
-    "CustomDOE": [*N_SIZES, "n5/dict-reordered", "n2/list-of-dicts", "n5/file"],
+    "CustomDOE": [*N_SIZES, "n5/int-array", "n5/dict-reordered", "n2/list-of-dicts", "n5/file"],
     "PYDOE_BBDESIGN": ["default", "center1", "center2"],
     "PYDOE_CCDESIGN": ["default", "inscribed", "faced", "ccc/rotatable", "cci/rotatable/c(1,0)", "ccf/c(0,1)"],
     "PYDOE_FF2N": ["default"],
@@ -297,7 +313,9 @@ def settings_for(case: dict, lb, ub, ints, scratch: str | None):
                 k += 1
             exp["exact"] = k**d
         else:
-            levels = {"L1": 1, "L2": 2, "Lvec": [1, 2, 3, 1, 2][:d]}[size]
+            levels = [int(x) for x in size[2:].split("-")] if size.startswith("Lv") and size != "Lvec" else {"L1": 1, "L2": 2, "Lvec": [1, 2, 3, 1, 2][:d]}[size]
+            if isinstance(levels, list) and len(levels) != d:
+                raise Inapplicable("levels vector of another dimension")
             s["levels"] = levels
             exp["exact"] = int(np.prod(levels)) if isinstance(levels, list) else levels**d
     elif algo in STRATIFIED:
@@ -309,6 +327,8 @@ def settings_for(case: dict, lb, ub, ints, scratch: str | None):
             s["levels"] = [0.5, 1.0] if size == "lev(.5,1)" else [0.2, 0.8]
             if size.endswith("c.25"):
                 s["centers"] = [0.25] * d
+            elif size.endswith("c-vec"):
+                s["centers"] = CENTER_VECTOR[:d]
             exp["exact"] = 1 + block * 2
     elif algo == "OT_SOBOL_INDICES":
         if size.endswith("first-order"):
@@ -323,14 +343,18 @@ def settings_for(case: dict, lb, ub, ints, scratch: str | None):
     elif algo == "OATDOE":
         exp["exact"] = d + 1
         point = {"p.5": [0.5] * d, "p-linspace": list(np.linspace(0.0, 1.0, d)) if d > 1 else [1.0], "p.97": [0.97] * d, "p.3/step.5": [0.3] * d}[size]
-        s["initial_point"] = point
+        s["initial_point"] = np.array(point, dtype=float)
         if size.endswith("step.5"):
             s["step"] = 0.5
     elif algo == "CustomDOE":
         rows = custom_rows(n, lb, ub, ints)
         exp["exact"] = n
-        exp["custom_rows"] = rows
         form = size.split("/")[1] if "/" in size else "array"
+        if form == "int-array":
+            rows = np.round(rows)
+            if ((rows < lb) | (rows > ub)).any():
+                raise Inapplicable("no integral points inside these bounds")
+        exp["custom_rows"] = rows.copy()  # the reference is private: the library is handed ``rows`` itself
         exp["custom_form"] = form
         off, parts = 0, {}
         for name, sz in VARS[d]:
@@ -338,6 +362,8 @@ def settings_for(case: dict, lb, ub, ints, scratch: str | None):
             off += sz
         if form == "array":
             s["samples"] = rows
+        elif form == "int-array":
+            s["samples"] = rows.astype(np.int64)
         elif form == "dict-reordered":
             s["samples"] = {k: parts[k] for k in sorted(parts)}  # sorted order != design-space order for d >= 2
         elif form == "list-of-dicts":
@@ -416,35 +442,46 @@ def factory():
     return _FACTORY
 
 
-def _plain(settings: dict) -> dict:
-    """A private copy of the settings (the library may mutate mappings)."""
-    out = {}
-    for k, v in settings.items():
-        if isinstance(v, np.ndarray):
-            out[k] = v.copy()
-        elif isinstance(v, dict):
-            out[k] = {kk: (vv.copy() if isinstance(vv, np.ndarray) else vv) for kk, vv in v.items()}
-        elif isinstance(v, list):
-            out[k] = [dict(e) if isinstance(e, dict) else e for e in v]
-        else:
-            out[k] = v
-    if "initial_point" in out:
-        out["initial_point"] = np.array(out["initial_point"], dtype=float)
-    return out
+class Inapplicable(Exception):
+    """The size label does not apply to this dimension / these bounds (counted, never silent)."""
+
+
+def snapshot(obj):
+    """A deep private copy of everything handed to the library."""
+    if isinstance(obj, np.ndarray):
+        return obj.copy()
+    if isinstance(obj, dict):
+        return {k: snapshot(v) for k, v in obj.items()}
+    if isinstance(obj, (list, tuple)):
+        return type(obj)(snapshot(v) for v in obj)
+    return obj
+
+
+def unchanged(obj, ref) -> bool:
+    """Bitwise comparison of the caller's objects with their snapshot (same types, keys, order, dtypes, bytes)."""
+    if type(obj) is not type(ref):
+        return False
+    if isinstance(obj, np.ndarray):
+        return same(obj, ref)
+    if isinstance(obj, dict):
+        return list(obj) == list(ref) and all(unchanged(obj[k], ref[k]) for k in obj)
+    if isinstance(obj, (list, tuple)):
+        return len(obj) == len(ref) and all(unchanged(a, b) for a, b in zip(obj, ref))
+    return obj == ref
 
 
 def call(algo: str, ds, settings: dict, entry: str, lib=None, unit: bool = False):
     """One DOE.  Returns (library, samples, unit_samples or None, database rows or None)."""
     lib = lib or factory().create(algo)
     if entry == "compute_doe":
-        out = lib.compute_doe(ds, unit_sampling=unit, **_plain(settings))
+        out = lib.compute_doe(ds, unit_sampling=unit, **settings)
         return lib, out, None, None
     from gemseo.algos.optimization_problem import OptimizationProblem
     from gemseo.core.mdo_functions.mdo_function import MDOFunction
 
     problem = OptimizationProblem(ds)
     problem.objective = MDOFunction(lambda x: float(np.sum(x)), "f")
-    lib.execute(problem, enable_progress_bar=False, **_plain(settings))
+    lib.execute(problem, enable_progress_bar=False, **settings)
     rows = [np.asarray(x) for x in problem.database.get_x_vect_history()]
     return lib, lib.samples, lib.unit_samples, rows
 
@@ -464,25 +501,109 @@ def _short(a, limit: int = 6):
     return np.array2string(a[:limit], precision=17, max_line_width=200, threshold=200)
 
 
+def _short_obj(obj) -> str:
+    if isinstance(obj, np.ndarray):
+        return _short(obj, 3)
+    return repr(obj)[:200]
+
+
+def point_set(points) -> set:
+    """The rows as a set; coordinates rounded to 1e-12 (the level values of the designs below are >= 0.01 apart and
+    computed with a handful of roundings of size 1e-16)."""
+    return {tuple(float(v) + 0.0 for v in np.round(row, 12)) for row in np.asarray(points, dtype=float)}
+
+
+def design_definition(algo: str, d: int, settings: dict, unit: np.ndarray) -> str | None:
+    """Independent reconstruction of the unit design from the documentation of the settings; a message if it differs."""
+    levels = settings.get("levels")
+    if algo in ("OT_FULLFACT", "PYDOE_FULLFACT"):
+        if levels is None or levels == ():  # deduced from n_samples: k levels per component, k^d <= n < (k+1)^d
+            k = 1
+            while (k + 1) ** d <= settings["n_samples"]:
+                k += 1
+            levels = k
+        per = [levels] * d if isinstance(levels, int) else list(levels)
+        # component i takes levels[i] equispaced values from 0 to 1 (its centre for a single level); full product
+        values = [[0.5] if n == 1 else [j / (n - 1) for j in range(n)] for n in per]
+        got = point_set(unit)
+        for i, vals in enumerate(values):
+            col = {round(float(v), 12) + 0.0 for v in unit[:, i]}
+            if col != {round(v, 12) + 0.0 for v in vals}:
+                return f"levels {per}: component {i} must take the {per[i]} value(s) {vals}; it takes {sorted(col)}"
+        if len(unit) != len(got) or got != point_set(list(itertools.product(*values))):
+            return f"levels {per}: the design is not the full product of the per-component level sets ({len(got)} distinct points of {len(unit)})"
+        return None
+    if algo in STRATIFIED and levels:
+        centers = settings.get("centers", 0.5)
+        c = [float(centers)] * d if isinstance(centers, (int, float)) else list(centers)
+        # a level l moves component i from its centre c_i to c_i + l (1 - c_i) and c_i - l c_i
+        pts = {tuple(c)}
+        for lev in levels:
+            hi = [ci + lev * (1 - ci) for ci in c]
+            lo = [ci - lev * ci for ci in c]
+            if algo in ("OT_AXIAL", "OT_COMPOSITE"):
+                for i in range(d):
+                    for v in (hi[i], lo[i]):
+                        pts.add(tuple(v if j == i else c[j] for j in range(d)))
+            if algo in ("OT_FACTORIAL", "OT_COMPOSITE"):
+                for signs in itertools.product((0, 1), repeat=d):
+                    pts.add(tuple(hi[i] if sg else lo[i] for i, sg in enumerate(signs)))
+        if point_set(unit) != point_set(list(pts)):
+            extra = sorted(point_set(unit) - point_set(list(pts)))[:3]
+            missing = sorted(point_set(list(pts)) - point_set(unit))[:3]
+            return f"centers {c}, levels {list(levels)}: unexpected points {extra}, missing points {missing}"
+        return None
+    if algo in ("PYDOE_BBDESIGN", "PYDOE_CCDESIGN", "PYDOE_PBDESIGN", "PYDOE_FF2N"):
+        import pyDOE3
+
+        if algo == "PYDOE_FF2N":  # all the corners of the cube
+            ref = point_set(list(itertools.product((0.0, 1.0), repeat=d)))
+            return None if point_set(unit) == ref and len(unit) == 2**d else f"the 2-level full factorial design is not the set of corners: {_short(unit)}"
+        direct = {
+            "PYDOE_BBDESIGN": lambda: pyDOE3.bbdesign(d, center=settings.get("center")),
+            "PYDOE_CCDESIGN": lambda: pyDOE3.ccdesign(d, center=tuple(settings.get("center", (4, 4))), alpha=settings.get("alpha", "orthogonal"), face=settings.get("face", "circumscribed")),
+            "PYDOE_PBDESIGN": lambda: pyDOE3.pbdesign(d),
+        }[algo]()
+        ref = (np.asarray(direct, dtype=float) + 1.0) * 0.5  # the documented map of pyDOE's [-1, 1] coding to [0, 1]
+        return None if ref.shape == unit.shape and np.array_equal(ref, unit) else f"not the pyDOE design mapped to the unit cube: {_short(unit)} vs {_short(ref)}"
+    return None
+
+
 def check_case(case: dict, scratch: str | None = None) -> dict:
     """Execute one case on the real code and evaluate every oracle that applies to it."""
     algo, d, layout, types, table, entry, seed, info = (case[k] for k in ("algo", "d", "layout", "types", "table", "entry", "seed", "info"))
     res = {"violations": [], "outcome": "", "obs": {}, "executed": False, "digest": None, "sharp": False}
     bad = res["violations"].append
     ds, lb, ub, ints = make_space(d, layout, types, table)
-    settings, exp = settings_for(case, lb, ub, ints, scratch)
     obs = res["obs"]
+    try:
+        settings, exp = settings_for(case, lb, ub, ints, scratch)
+    except Inapplicable as e:
+        res["outcome"] = f"not-applicable:{e}"
+        return res
     obs["settings"] = {k: (v if not isinstance(v, np.ndarray) else v.tolist()) for k, v in settings.items() if k != "samples"}
+    # The library is handed the caller's own objects (arrays, mappings, lists) at every call of this case; ``passed`` is
+    # a private deep copy: "the call does not modify its arguments" is checked after each call, and the repeated calls
+    # below reuse the same objects (so that a consequence shows up in the determinism oracles as well).
+    passed = snapshot(settings)
+
+    def arguments_unchanged(where: str) -> None:
+        if not unchanged(settings, passed):
+            changed = [k for k in settings if not unchanged(settings[k], passed[k])]
+            bad(("arguments-unchanged", f"{where} modified the objects passed by the caller for the settings {changed}: {_short_obj(passed[changed[0]])} became {_short_obj(settings[changed[0]])}"))
+
     before = ds.enable_integer_variables_normalization
     try:
         lib, samples, unit, rows = call(algo, ds, settings, entry)
     except EXPECTED_ERRORS as e:
         res["outcome"] = f"skipped:{type(e).__name__}"
         obs["error"] = f"{type(e).__name__}: {str(e)[:200]}"
+        arguments_unchanged(f"the refused {entry}")
         if ds.enable_integer_variables_normalization != before:
             bad(("switch-restored-after-error", f"enable_integer_variables_normalization was {before} before the call and is {ds.enable_integer_variables_normalization} after it raised {type(e).__name__}: {str(e)[:160]}"))
         return res
     res["executed"] = True
+    arguments_unchanged(entry)
     samples = np.asarray(samples)
     if exp.get("file_parse_inexact"):
         obs["file_parse_inexact"] = True
@@ -560,23 +681,42 @@ def check_case(case: dict, scratch: str | None = None) -> dict:
     deterministic = True
     other = bool(ints.any())
     ds2 = make_space(d, layout, types, table, int_norm=other)[0]
-    _, again, unit2, _ = call(algo, ds2, settings, entry)
-    if not same(samples, again):
+    try:
+        _, again, unit2, _ = call(algo, ds2, settings, entry)
+    except EXPECTED_ERRORS as e:
+        again = f"raised {type(e).__name__}: {str(e)[:160]}"
+    arguments_unchanged(f"the second {entry}")
+    if isinstance(again, str):
+        deterministic = False
+        bad(("determinism", f"the first {entry} succeeded; repeated with the same objects on a fresh library instance and an equal design space it {again}"))
+    elif not same(samples, again):
         deterministic = False
         bad(("determinism", f"two fresh library instances, same settings, seed={seed}" + (", enable_integer_variables_normalization initially False then True" if other else "") + f": {_short(samples, 3)} then {_short(again, 3)}"))
     if ds2.enable_integer_variables_normalization is not other:
         bad(("switch-restored", f"enable_integer_variables_normalization was {other} before the call and is {ds2.enable_integer_variables_normalization} after it"))
     if seed is not None and info["seed_setting"]:
         ds3 = make_space(d, layout, types, table)[0]
-        _, third, _, _ = call(algo, ds3, settings, entry, lib=lib)
-        if not same(samples, third):
+        try:
+            _, third, _, _ = call(algo, ds3, settings, entry, lib=lib)
+        except EXPECTED_ERRORS as e:
+            third = f"raised {type(e).__name__}: {str(e)[:160]}"
+        arguments_unchanged(f"the {entry} repeated on the same library instance")
+        if isinstance(third, str):
+            deterministic = False
+            bad(("determinism-same-instance", f"the first {entry} succeeded; repeated on the same library instance it {third}"))
+        elif not same(samples, third):
             deterministic = False
             bad(("determinism-same-instance", f"second call of the same library instance with seed={seed}: {_short(samples, 3)} then {_short(third, 3)}"))
     # image of the unit samples --------------------------------------------------------------------------------------
     if entry == "compute_doe":
         ds4 = make_space(d, layout, types, table)[0]
         b4 = ds4.enable_integer_variables_normalization
-        _, unit, _, _ = call(algo, ds4, settings, entry, unit=True)
+        try:
+            _, unit, _, _ = call(algo, ds4, settings, entry, unit=True)
+        except EXPECTED_ERRORS as e:
+            deterministic, unit = False, np.empty((0, d))
+            bad(("image", f"compute_doe succeeded but compute_doe(unit_sampling=True) with the same objects raised {type(e).__name__}: {str(e)[:160]}"))
+        arguments_unchanged("compute_doe(unit_sampling=True)")
         if ds4.enable_integer_variables_normalization != b4:
             bad(("switch-restored", "unit_sampling=True changed enable_integer_variables_normalization"))
     unit = np.asarray(unit)
@@ -595,6 +735,11 @@ def check_case(case: dict, scratch: str | None = None) -> dict:
                 bad(("image", f"samples {_short(samples, 3)} != untransform_vect(unit samples) {_short(image, 3)} (unit {_short(unit, 3)})"))
             elif not np.array_equal(samples, formula):
                 bad(("image-formula", f"samples {_short(samples, 3)} != round_int(u*(ub-lb)+lb) {_short(formula, 3)}"))
+    # the design itself, where the documentation defines it ----------------------------------------------------------
+    if deterministic and unit.shape == samples.shape:
+        msg = design_definition(algo, d, settings, unit)
+        if msg:
+            bad(("design-definition", msg))
     # database keys -------------------------------------------------------------------------------------------------
     if rows is not None:
         seen, first = set(), []
@@ -624,7 +769,7 @@ def case_key(case: dict) -> tuple:
 
 
 # invariants that do not look at the bounds: one signature per algorithm, whatever the layout
-LAYOUT_FREE = {"count", "count-more-than-requested", "switch-restored", "determinism", "determinism-same-instance", "determinism-second-process"}
+LAYOUT_FREE = {"arguments-unchanged", "design-definition", "count", "count-more-than-requested", "switch-restored", "determinism", "determinism-same-instance", "determinism-second-process"}
 
 
 def signature(inv: str, case: dict) -> dict:
@@ -653,6 +798,8 @@ def run_case(case: dict, tally) -> None:
             tally.count("PoissonDisk:fewer-than-requested")
         if case.get("xproc") and res["digest"]:
             tally.sets.setdefault("xproc", set()).add((json.dumps(light, sort_keys=True), res["digest"]))
+    elif res["outcome"].startswith("not-applicable"):
+        tally.count(f"{res['outcome']}:{algo}:{case['size']}")
     else:
         tally.count(f"skipped:{algo}:{res['outcome'].split(':', 1)[1]}")
     seen = set()
@@ -763,6 +910,7 @@ def check_history(case: dict, scratch: str | None = None) -> dict:
 
     # step 2 on the edited space, and the same DOE on a freshly built equal space ----------------------------------------
     settings, exp = settings_for(case, lb1, ub1, ints, scratch)
+    given = snapshot(settings)
     obs["settings"] = {k: (v if not isinstance(v, np.ndarray) else v.tolist()) for k, v in settings.items() if k != "samples"}
     before = ds.enable_integer_variables_normalization
     fresh_ds = build_space(d, lb1, ub1, ints, int_norm=pre)
@@ -788,6 +936,8 @@ def check_history(case: dict, scratch: str | None = None) -> dict:
         _, fresh, _, _ = call(algo, fresh_ds, settings, entry)
     except EXPECTED_ERRORS as e:
         ferr = f"{type(e).__name__}: {str(e)[:200]}"
+    if not unchanged(settings, given):
+        bad(("arguments-unchanged", f"the DOE modified the objects passed by the caller: {_short_obj(given)} became {_short_obj(settings)}"))
     if ds.enable_integer_variables_normalization != before:
         bad(("switch-restored", f"enable_integer_variables_normalization was {before} before the second DOE and is {ds.enable_integer_variables_normalization} after it"))
     if err or ferr:
@@ -904,6 +1054,11 @@ def enumerate_cases(ctx, table: int, infos: dict, tally):
         seeds = ax["seed"] if info["seed_setting"] else [None]
         # simplest first: dimension, layout, types, size, seed, entry
         for c in product.full({"d": ax["d"], "layout": ax["layout"], "types": ax["types"], "size": sizes, "seed": seeds, "entry": ax["entry"]}):
+            if c["size"].startswith("Lv") and c["size"] != "Lvec":
+                if c["size"].count("-") + 1 != c["d"]:
+                    continue  # a levels vector belongs to the alphabet of its own dimension only
+                if not ctx.thorough and c["seed"] is not None:
+                    continue  # quick: the levels vectors with the seed unset only (value-axis reduction)
             if c["d"] == 1 and c["types"] == "mixed":
                 tally.count("not-enumerated:mixed-types-with-a-single-variable")
                 continue
